@@ -48,7 +48,7 @@ def plan(tier, seed):
                  "documented": 150}
         per = 450
     else:
-        kinds = {"locate": 300000, "render": 40000, "track": 40000, "storage": 4000, "trackers": 8000,
+        kinds = {"locate": 150000, "render": 30000, "track": 30000, "storage": 4000, "trackers": 8000,
                  "documented": 1500}
         per = 6000
     return common.shards(kinds, per_shard=per, tier=tier, seed=seed, timeout_s=3000)
